@@ -5,6 +5,9 @@ import CruxVerif.Props.C07
 #print axioms Props.C07.evict_sound_runTask
 #print axioms Props.C07.evict_sound_reachable
 #print axioms Props.C07.stored_blocks_well_formed
+#print axioms Props.C07.poll_keeps_others_parked
+#print axioms Props.C07.woken_means_queued
+#print axioms Props.C07.parked_unwoken_is_live
 #print axioms Props.C07.poll_parks
 #print axioms Props.C07.done_iff
 #print axioms Props.C07.host_sees_done_exactly
